@@ -52,7 +52,11 @@ class Bulb:
         self.record = []
 
     def reset_state(self):
+        record = self.record
+        present = self.present
         self.__init__(self.spec, self.idx)
+        self.record = record
+        self.present = present
 
     # ------------------------------------------------------------------
     def handle(self, req, ev, now):
